@@ -17,43 +17,37 @@ type FirewallRule struct {
 	ToService   string
 }
 
-func buildComp(field string, pattern string) CompareFunc {
+func buildComp(field string, pattern string) (CompareFunc, error) {
 	if pattern == "" {
-		return nil
+		return nil, nil
 	}
-	var comp CompareFunc
 	if strings.HasPrefix(pattern, "/") {
-		comp, _ = regexCompare(field, pattern)
-	} else {
-		comp, _ = stringCompare(field, pattern)
+		return regexCompare(field, pattern)
 	}
 
-	return comp
+	return stringCompare(field, pattern)
 }
 
-func (fr FirewallRule) BuildComps() []CompareFunc {
+// BuildComps returns the comparers for the fields given in the rule, or an
+// error if one of them cannot be interpreted.
+func (fr FirewallRule) BuildComps() ([]CompareFunc, error) {
 	var comps []CompareFunc
-	fnc := buildComp("fromnode", fr.FromNode)
-	if fnc != nil {
-		comps = append(comps, fnc)
+	for _, f := range []struct{ field, pattern string }{
+		{"fromnode", fr.FromNode},
+		{"tonode", fr.ToNode},
+		{"fromservice", fr.FromService},
+		{"toservice", fr.ToService},
+	} {
+		comp, err := buildComp(f.field, f.pattern)
+		if err != nil {
+			return nil, fmt.Errorf("invalid %s: %w", f.field, err)
+		}
+		if comp != nil {
+			comps = append(comps, comp)
+		}
 	}
 
-	tnc := buildComp("tonode", fr.ToNode)
-	if tnc != nil {
-		comps = append(comps, tnc)
-	}
-
-	fsc := buildComp("fromservice", fr.FromService)
-	if fsc != nil {
-		comps = append(comps, fsc)
-	}
-
-	tsc := buildComp("toservice", fr.ToService)
-	if tsc != nil {
-		comps = append(comps, tsc)
-	}
-
-	return comps
+	return comps, nil
 }
 
 // ParseFirewallRule takes a single string describing a firewall rule, and returns a FirewallRuleFunc function.
@@ -93,7 +87,10 @@ func (frd FirewallRuleData) ParseFirewallRule() (FirewallRuleFunc, error) {
 		}
 	}
 
-	comps := fr.BuildComps()
+	comps, err := fr.BuildComps()
+	if err != nil {
+		return nil, err
+	}
 	fwr, err := firewallRule(comps, fr.Action)
 	if err != nil {
 		return nil, err
@@ -173,13 +170,16 @@ func stringCompare(field string, value string) (CompareFunc, error) {
 }
 
 func regexCompare(field string, value string) (CompareFunc, error) {
-	if value[0] != '/' || value[len(value)-1] != '/' {
+	if len(value) < 2 || value[0] != '/' || value[len(value)-1] != '/' {
 		return nil, fmt.Errorf("regex not enclosed in //")
 	}
-	value = fmt.Sprintf("^%s$", value[1:len(value)-1])
-	re, err := regexp.Compile(value)
+	body := value[1 : len(value)-1]
+	if _, err := regexp.Compile(body); err != nil {
+		return nil, fmt.Errorf("regex failed to compile: %s", body)
+	}
+	re, err := regexp.Compile("^" + body + "$")
 	if err != nil {
-		return nil, fmt.Errorf("regex failed to compile: %s", value)
+		return nil, fmt.Errorf("regex failed to compile: %s", body)
 	}
 	switch strings.ToLower(field) {
 	case "fromnode":
